@@ -151,7 +151,10 @@ MANIFEST = dict(
           "the announced key, that an admitted message satisfies every C05 rule, and that strip+complete is the identity on valid messages; two named deviations must be refuted. "
           "A seeded sample of whole twin families is executed on the real code (production strip and inference, fresh participants and long-lived participants whose cache is shared "
           "by both paths, family order / reversed / random permutations, constant eviction and no eviction) and TLC evaluates C13_SameAcceptance, C13_NoForeignChain, "
-          "C13_NoForeignJustification, C13_RoundTrip on every recorded row."),
+          "C13_NoForeignJustification, C13_RoundTrip on every recorded row. A further stage models the production completion path -- pmsg.PartialMessageManager: per-instance bounded "
+          "buffers with eviction, the chain-key index, discovery-driven completion, pruning, broadcast de-duplication (PartialManager.tla, model-checked, four mutants and the "
+          "emission-level key clause refuted) -- and validates recorded histories of the real manager (real libp2p host, production constructor and run loop, real signatures) against "
+          "it: C13_MgrNoForeignChain, C13_MgrSameAcceptance, C13_MgrRoundTrip, C13_MgrComplete."),
     note=("Trusted: TLC, the coordinate->message codec, the fake signature backend. Bounded: listed coordinate values; signer-set/instance/supplemental-data axes reduced "
           "(covered by C05); progress constant across the two stages; wire partial messages with arbitrary junk in the stripped fields are limited to 'kept justification value'."),
     technique="TLA+ model of both validation paths model-checked with TLC + table of real two-stage/one-shot outcomes checked by TLC",
